@@ -34,7 +34,7 @@ ASSUMPTIONS = ['M-verify (sim/model.py) is the reference reading of "matches"; i
 
 def generate(rng, tier, idx, keep_going=False):
     top = 'Manifest' if rng.random() < 0.9 else rng.choice(['Manifest.gz', 'Manifest.xz'])
-    g = GT.gen_tree(rng, {'top': top, 'p_style': 0.12, 'p_wrong_dup': 0.12, 'p_second_manifest_ref': 0.2, 'p_second_manifest_ref_wrong': 0.4})
+    g = GT.gen_tree(rng, {'top': top, 'p_style': 0.12, 'p_listed_hidden': 0.4, 'p_wrong_dup': 0.12, 'p_second_manifest_ref': 0.2, 'p_second_manifest_ref_wrong': 0.4})
     info = g['info']
     r = rng.random()
     nm = 0 if r < 0.25 else rng.choice([1, 1, 1, 2, 2, 3, 4])
